@@ -80,7 +80,9 @@ deriving DecidableEq, Repr, Inhabited
 
 inductive EvKind
   | start
-  | complete (status : St)
+  /-- `natural = some r`: the `CompleteEvent` pushed by the start event of run `r` (ghost);
+  `none`: the one pushed by `_stop_or_pause_trial` -/
+  | complete (status : St) (natural : Option Nat)
   | stop
   | result (r : Res) (tag : Tag)
 deriving DecidableEq, Repr, Inhabited
@@ -126,8 +128,12 @@ structure STrial where
   -- ghost
   runs : Nat := 0            -- start events processed so far
   commanded : Bool := false  -- a pause/stop command was issued and no resume since
+  flushed : Bool := false    -- ... and a poll not covering the trial happened since the command
   since : List Tag := []     -- delivered since the last start_trial / resume_trial
+  droppedSince : Bool := false     -- some arrived result was dropped since then
+  expectRun : Nat := 0             -- run number of the start event scheduled by it
   queuedAtResume : Bool := false   -- arrived-but-unfetched results existed at the last resume
+  completedRun : Option Nat := none -- the run whose own completion event has been processed
 deriving Repr, Inhabited
 
 /-- ghost: one processed start event -/
@@ -210,15 +216,17 @@ def Sim.processStart (A : Arith) (job : JobFn J) (s : Sim J) (t : Nat) (te : Rat
     | .ok (js', status, rs) =>
       let s0 := { s with js := js' }
       let p := pushResults A s0 t te x.runs rs 0 te
-      let s1 := p.1.push (A.add p.2 s.cfg.dCompleteFinal) t (.complete status)
+      let s1 := p.1.push (A.add p.2 s.cfg.dCompleteFinal) t (.complete status (some x.runs))
       .ok { (s1.updT t fun y => { y with runs := y.runs + 1 }) with
             busy := insertNat t s1.busy,
             runs := s1.runs ++ [⟨t, x.runs, te, s.js, js', rs⟩] }
 
 /-- `_process_complete_event` -/
-def Sim.processComplete (s : Sim J) (t : Nat) (status : St) : Except BErr (Sim J) :=
+def Sim.processComplete (s : Sim J) (t : Nat) (status : St) (natural : Option Nat) : Except BErr (Sim J) :=
   if t < s.trials.length then
-    .ok { (s.updT t fun y => { y with isResult := true, status := status }) with busy := s.busy.erase t }
+    .ok { (s.updT t fun y => { y with isResult := true, status := status,
+                                      completedRun := if natural.isSome then natural else y.completedRun }) with
+          busy := s.busy.erase t }
   else .error (.keyError "_trial_dict")
 
 /-- `_process_stop_event` -/
@@ -236,7 +244,7 @@ def Sim.processResult (s : Sim J) (t : Nat) (te : Rat) (r : Res) (tag : Tag) : E
 def Sim.processEvent (A : Arith) (job : JobFn J) (s : Sim J) (e : Ev) : Except BErr (Sim J) :=
   match e.kind with
   | .start => s.processStart A job e.trial e.time
-  | .complete st => s.processComplete e.trial st
+  | .complete st nat => s.processComplete e.trial st nat
   | .stop => .ok (s.processStop e.trial)
   | .result r tag => s.processResult e.trial e.time r tag
 
@@ -280,7 +288,7 @@ def Sim.stopOrPause (A : Arith) (job : JobFn J) (s : Sim J) (t : Nat) (status : 
     | .error e => .error e
     | .ok s3 =>
       let timeComplete := A.add s3.now s3.cfg.dCompleteStop
-      let s4 := (s3.push timeComplete t (.complete status)).advanceTo (A.add timeComplete s3.cfg.guard)
+      let s4 := (s3.push timeComplete t (.complete status none)).advanceTo (A.add timeComplete s3.cfg.guard)
       match Sim.processUntil A job simFuel s4 with
       | .error e => .error e
       | .ok s5 => .ok s5.markExit
@@ -296,16 +304,21 @@ def fetchCovered (s : Sim J) : List Nat → Sim J × List (Nat × Arrived)
     | none => fetchCovered s rest
     | some l =>
       let s' := { s with next := adel t s.next, seen := incSeen s.seen t l.length,
-                         log := s.log ++ l.map (fun a => ⟨t, a.tag, true, a⟩) }
-      let r := fetchCovered (s'.updT t fun y => { y with since := y.since ++ l.map (·.tag) }) rest
-      (r.1, l.map (fun a => (t, a)) ++ r.2)
+                         log := s.log ++ l.map (fun (a : Arrived) => (⟨t, a.tag, true, a⟩ : LogEntry)) }
+      let r := fetchCovered (s'.updT t fun y => { y with since := y.since ++ l.map Arrived.tag }) rest
+      (r.1, l.map (fun (a : Arrived) => (t, a)) ++ r.2)
 
 /-- results of trials not covered by `trial_ids`: counted, dropped -/
 def dropRest (s : Sim J) : List (Nat × List Arrived) → Sim J
   | [] => { s with next := [] }
   | (t, l) :: rest =>
-    dropRest { s with seen := incSeen s.seen t l.length,
-                      log := s.log ++ l.map (fun a => ⟨t, a.tag, false, a⟩) } rest
+    dropRest { (s.updT t fun y => { y with droppedSince := y.droppedSince || decide (l ≠ []) }) with
+               seen := incSeen s.seen t l.length,
+               log := s.log ++ l.map (fun (a : Arrived) => (⟨t, a.tag, false, a⟩ : LogEntry)) } rest
+
+/-- ghost: a poll that does not cover a commanded trial flushes what was queued for it -/
+def markFlushed (ids : List Nat) (trials : List STrial) : List STrial :=
+  trials.zipIdx.map fun (y, t) => if y.commanded ∧ t ∉ ids then { y with flushed := true } else y
 
 def Sim.statusOf (s : Sim J) (t : Nat) : Except BErr St :=
   match s.trials[t]? with
@@ -332,7 +345,8 @@ def Sim.fetch (A : Arith) (job : JobFn J) (s : Sim J) (ids : List Nat) :
     | .error e => .error e
     | .ok s2 =>
       let c := fetchCovered s2 ids
-      let s3 := dropRest c.1 c.1.next
+      let s3' := dropRest c.1 c.1.next
+      let s3 := { s3' with trials := markFlushed ids s3'.trials }
       match statusList s3 ids with
       | .error e => .error e
       | .ok sts => .ok (s3.markExit, sts, c.2)
@@ -365,13 +379,14 @@ def Sim.resumeTrial (A : Arith) (job : JobFn J) (s : Sim J) (t : Nat) (setCfg : 
     match s0.schedule A job t with
     | .error e => .error e
     | .ok s' =>
-      .ok (s'.updT t fun y => { y with status := .inProgress, commanded := false, since := [],
-                                       queuedAtResume := ((alookup t s.next).getD []).length > 0 })
+      .ok (s'.updT t fun y => { y with status := .inProgress, commanded := false, flushed := false,
+                                       since := [], droppedSince := false, expectRun := y.runs,
+                                       queuedAtResume := (alookup t s'.next).isSome })
 
 /-- `pause_trial` (`_pause_trial` of the subclass records the level afterwards: `after`) -/
 def Sim.pauseTrial (A : Arith) (job : JobFn J) (s : Sim J) (t : Nat) (after : J → J) : Except BErr (Sim J) :=
   if t < s.trials.length then
-    let s0 := s.updT t fun y => { y with status := .paused, commanded := true }
+    let s0 := s.updT t fun y => { y with status := .paused, commanded := true, flushed := false }
     match s0.stopOrPause A job t .paused with
     | .error e => .error e
     | .ok s' => .ok { s' with js := after s'.js }
@@ -379,7 +394,7 @@ def Sim.pauseTrial (A : Arith) (job : JobFn J) (s : Sim J) (t : Nat) (after : J 
 
 /-- `stop_trial` -/
 def Sim.stopTrial (A : Arith) (job : JobFn J) (s : Sim J) (t : Nat) : Except BErr (Sim J) :=
-  (s.updT t fun y => { y with commanded := true }).stopOrPause A job t .stopped
+  (s.updT t fun y => { y with commanded := true, flushed := false }).stopOrPause A job t .stopped
 
 /-- `stop_all`: the list of `TrialResult` objects is taken first, their status is read live -/
 def simStopAllGo (A : Arith) (job : JobFn J) (s : Sim J) : List Nat → Except BErr (Sim J)
